@@ -526,6 +526,17 @@ func TestCheck(t *testing.T) {
 		})
 	}
 
+	// backlog: many bundles wait at once; when the destination / a relay appears every one of them is transmitted
+	for _, a := range []string{"epidemic", "spray"} {
+		a := a
+		r.Group("backlog-"+a, r.Pick(6, 60), func(i int, rng *report.Rand) {
+			err := bubble.Run(nil, func(t *testing.T) { backlog(r, a, 20+rng.Intn(100), i) })
+			if err != nil {
+				r.Violation("c05.node-deadlock-or-panic:"+errClass(err), err.Error(), map[string]interface{}{"algorithm": a, "workload": "backlog"})
+			}
+		})
+	}
+
 	// bursts: receptions, submissions and a peer appearance back to back, partly at the instant of the retry job
 	for _, a := range []string{"epidemic", "spray", "prophet", "sensor-mule"} {
 		a := a
@@ -625,6 +636,28 @@ func concurrentFailure(r *report.Run, algo string, k int, rng *report.Rand) {
 	wg.Add(1)
 	go func() { defer wg.Done(); s.Core.SendBundle(&b) }()
 	s.Wait() // all sends are parked on the gate
+	// R1 at this very instant: the bundle is accepted, no convergence layer has reported anything yet - it must be in
+	// the persistent store, marked for retry (a node that dies now must find it again when it comes back)
+	if pend, perr := s.Pending(); perr == nil {
+		held := false
+		for _, it := range pend {
+			for _, p := range it.PIDs {
+				if p == "cf" {
+					held = true
+				}
+			}
+		}
+		r.Count("R1.checked_while_transmissions_under_way", 1)
+		if !held {
+			r.Violation("c05.R1.not-marked-for-retry-while-transmitting:"+algo,
+				fmt.Sprintf("%s: %d transmissions of an accepted bundle are under way, none has reported a result yet, but the store does not list the bundle as pending", algo, k),
+				map[string]interface{}{"algorithm": algo, "peers": names, "trace": s.TraceStrings()})
+			close(gate)
+			wg.Wait()
+			s.Wait()
+			return
+		}
+	}
 	close(gate)
 	wg.Wait()
 	s.Wait()
@@ -664,4 +697,76 @@ func concurrentFailure(r *report.Run, algo string, k int, rng *report.Rand) {
 			return
 		}
 	}
+}
+
+// backlog: n bundles are submitted while nobody is connected; then a relay and later the destination node appear.
+// Every waiting bundle is in the store marked for retry (R1), is offered to the relay when it appears (epidemic, R3) and
+// transmitted to the destination when that appears (R2) - however many bundles wait.
+func backlog(r *report.Run, algo string, n, idx int) {
+	conf := nodesim.RoutingConf(algo)
+	conf.SprayConf.Multiplicity = 4
+	s, err := nodesim.New(nodesim.Config{Routing: conf})
+	if err != nil {
+		r.Violation("c05.open-failed", err.Error(), nil)
+		return
+	}
+	defer s.Close()
+	for i := 0; i < n; i++ {
+		b, _ := bpv7.Builder().CRC(bpv7.CRC32).Source("dtn://node/app").Destination("dtn://d1/in").CreationTimestampNow().Lifetime("24h").
+			PayloadBlock(nodesim.Payload(fmt.Sprintf("q%d", i), 4)).Build()
+		s.Submit(b)
+	}
+	wit := func() interface{} {
+		return map[string]interface{}{"algorithm": algo, "waiting_bundles": n, "trace_tail": s.TraceStrings()[max(0, len(s.TraceStrings())-6):]}
+	}
+	pend, perr := s.Pending()
+	if perr != nil {
+		r.Violation("c05.query-pending-failed", perr.Error(), wit())
+		return
+	}
+	held := map[string]bool{}
+	for _, it := range pend {
+		for _, p := range it.PIDs {
+			held[p] = true
+		}
+	}
+	for i := 0; i < n; i++ {
+		if !held[fmt.Sprintf("q%d", i)] {
+			r.Violation("c05.R1.lost:backlog", fmt.Sprintf("%d bundles were submitted while nobody was connected; bundle %d is not listed as pending", n, i), wit())
+			return
+		}
+	}
+	r.Count("backlog.R1_checked", n)
+	offered := func(peer string, from int) map[string]bool {
+		m := map[string]bool{}
+		for _, x := range s.SendsSince(from) {
+			if x.Peer == peer {
+				m[x.PID] = true
+			}
+		}
+		return m
+	}
+	if algo == "epidemic" {
+		step := s.PeerUp("r1")
+		_ = step
+		got := offered("r1", 0)
+		for i := 0; i < n; i++ {
+			r.Count("backlog.R3_checked", 1)
+			if !got[fmt.Sprintf("q%d", i)] {
+				r.Violation("c05.R3.not-offered:backlog", fmt.Sprintf("epidemic: %d bundles wait; relay r1 appeared but bundle %d was not offered to it", n, i), wit())
+				return
+			}
+		}
+	}
+	s.PeerUp("d1")
+	got := offered("d1", 0)
+	for i := 0; i < n; i++ {
+		r.Count("backlog.R2_checked", 1)
+		if !got[fmt.Sprintf("q%d", i)] {
+			r.Violation("c05.R2.not-sent-to-destination:backlog", fmt.Sprintf("%s: %d bundles wait for node d1; d1 appeared but bundle %d was not transmitted to it", algo, n, i), wit())
+			return
+		}
+	}
+	r.Count("backlog.scenarios", 1)
+	r.Nontrivial("backlog", algo, n)
 }
